@@ -187,7 +187,9 @@ def run(F, chk):
         if okset is None:
             rc.info(key, "", "writers: %s" % sorted(w.split("::")[-1] for w in writers))
             continue
-        bad = [w for w in writers if w.split("::")[-1] not in okset or not w.startswith(BK + "::")]
+        okw = lambda w, okset=okset: w.split("::")[-1] in okset and w.startswith(BK + "::")
+        folded_w, _ = lib.fold_private_writers(F, {w: {fld} for w in writers}, okw)
+        bad = [w for w in folded_w if not okw(w)]
         rc.fn(*writers)
         if not writers:
             rc.broke("no writer of Backend.%s found" % fld)
